@@ -13,5 +13,15 @@ for d in seeded/*/; do
     else echo "SEEDED $p $n: thorough tier only (set SEEDED_THOROUGH=1 to run it)"; fi
     continue
   fi
+  # SEEDED_FAST=1: run only the clause that reported the change when it was confirmed (from meta.json); the whole
+  # quick check is run when that clause alone does not report it
+  cl=""
+  if [ "$SEEDED_FAST" = 1 ]; then
+    cl=$(grep -o 'clause=[A-Za-z0-9_]*' "$d/meta.json" | head -1 | cut -d= -f2)
+  fi
+  if [ -n "$cl" ]; then
+    r=$(tools/seeded.sh "$d" "$p" quick "$cl" 2>&1 | grep '^SEEDED')
+    case "$r" in *"check rc=1"*) echo "$r [clause $cl]"; continue;; esac
+  fi
   tools/seeded.sh "$d" "$p" 2>&1 | grep '^SEEDED'
 done
